@@ -378,10 +378,69 @@ static void v_install_traps(void)
 	for (unsigned i = 0; i < sizeof sigs / sizeof sigs[0]; i++) sigaction(sigs[i], &sa, 0);
 }
 /* if (V_TRY(secs)) { library call(s); V_END; } else { v_describe_fault(); ... }  */
+/* ---- register poisoning: every caller-saved register holds garbage when a monitored library call starts.  The SysV ABI lets a
+ * callee assume nothing about rax, rcx, rdx, rsi, rdi, r8-r11 (beyond its arguments), xmm/ymm/zmm0-31 and k0-k7; a kernel whose result
+ * depends on what the previous routine left there (a constant it forgot to load, an accumulator it forgot to clear, upper vector
+ * halves it assumes zero) works in a test that always calls the same sequence and fails in an application.  v_poison_regs() is an
+ * ordinary function (so the compiler already assumes it clobbers those registers) that loads them from a buffer that changes on
+ * every call; it runs between sigsetjmp and the first library call of a V_TRY block. */
+uint8_t v_poison_buf[64 * 32 + 128] __attribute__((aligned(64), used));
+void v_poison_sse(void); void v_poison_avx(void); void v_poison_avx512(void);
+__asm__(".text\n"
+	".globl v_poison_sse\n.type v_poison_sse,@function\nv_poison_sse:\n\tlea v_poison_buf(%rip),%rax\n"
+	"\tmovdqu 0(%rax),%xmm0\n\tmovdqu 64(%rax),%xmm1\n\tmovdqu 128(%rax),%xmm2\n\tmovdqu 192(%rax),%xmm3\n\tmovdqu 256(%rax),%xmm4\n\tmovdqu 320(%rax),%xmm5\n\tmovdqu 384(%rax),%xmm6\n\tmovdqu 448(%rax),%xmm7\n"
+	"\tmovdqu 512(%rax),%xmm8\n\tmovdqu 576(%rax),%xmm9\n\tmovdqu 640(%rax),%xmm10\n\tmovdqu 704(%rax),%xmm11\n\tmovdqu 768(%rax),%xmm12\n\tmovdqu 832(%rax),%xmm13\n\tmovdqu 896(%rax),%xmm14\n\tmovdqu 960(%rax),%xmm15\n"
+	"\tjmp 9f\n"
+	".globl v_poison_avx\n.type v_poison_avx,@function\nv_poison_avx:\n\tlea v_poison_buf(%rip),%rax\n"
+	"\tvmovdqu 0(%rax),%ymm0\n\tvmovdqu 64(%rax),%ymm1\n\tvmovdqu 128(%rax),%ymm2\n\tvmovdqu 192(%rax),%ymm3\n\tvmovdqu 256(%rax),%ymm4\n\tvmovdqu 320(%rax),%ymm5\n\tvmovdqu 384(%rax),%ymm6\n\tvmovdqu 448(%rax),%ymm7\n"
+	"\tvmovdqu 512(%rax),%ymm8\n\tvmovdqu 576(%rax),%ymm9\n\tvmovdqu 640(%rax),%ymm10\n\tvmovdqu 704(%rax),%ymm11\n\tvmovdqu 768(%rax),%ymm12\n\tvmovdqu 832(%rax),%ymm13\n\tvmovdqu 896(%rax),%ymm14\n\tvmovdqu 960(%rax),%ymm15\n"
+	"\tjmp 9f\n"
+	".globl v_poison_avx512\n.type v_poison_avx512,@function\nv_poison_avx512:\n\tlea v_poison_buf(%rip),%rax\n"
+	"\tvmovdqu64 0(%rax),%zmm0\n\tvmovdqu64 64(%rax),%zmm1\n\tvmovdqu64 128(%rax),%zmm2\n\tvmovdqu64 192(%rax),%zmm3\n\tvmovdqu64 256(%rax),%zmm4\n\tvmovdqu64 320(%rax),%zmm5\n\tvmovdqu64 384(%rax),%zmm6\n\tvmovdqu64 448(%rax),%zmm7\n"
+	"\tvmovdqu64 512(%rax),%zmm8\n\tvmovdqu64 576(%rax),%zmm9\n\tvmovdqu64 640(%rax),%zmm10\n\tvmovdqu64 704(%rax),%zmm11\n\tvmovdqu64 768(%rax),%zmm12\n\tvmovdqu64 832(%rax),%zmm13\n\tvmovdqu64 896(%rax),%zmm14\n\tvmovdqu64 960(%rax),%zmm15\n"
+	"\tvmovdqu64 1024(%rax),%zmm16\n\tvmovdqu64 1088(%rax),%zmm17\n\tvmovdqu64 1152(%rax),%zmm18\n\tvmovdqu64 1216(%rax),%zmm19\n\tvmovdqu64 1280(%rax),%zmm20\n\tvmovdqu64 1344(%rax),%zmm21\n\tvmovdqu64 1408(%rax),%zmm22\n\tvmovdqu64 1472(%rax),%zmm23\n"
+	"\tvmovdqu64 1536(%rax),%zmm24\n\tvmovdqu64 1600(%rax),%zmm25\n\tvmovdqu64 1664(%rax),%zmm26\n\tvmovdqu64 1728(%rax),%zmm27\n\tvmovdqu64 1792(%rax),%zmm28\n\tvmovdqu64 1856(%rax),%zmm29\n\tvmovdqu64 1920(%rax),%zmm30\n\tvmovdqu64 1984(%rax),%zmm31\n"
+	"\tkmovq 2048(%rax),%k1\n\tkmovq 2056(%rax),%k2\n\tkmovq 2064(%rax),%k3\n\tkmovq 2072(%rax),%k4\n\tkmovq 2080(%rax),%k5\n\tkmovq 2088(%rax),%k6\n\tkmovq 2096(%rax),%k7\n"
+	"9:\tmov 8(%rax),%rcx\n\tmov 72(%rax),%rdx\n\tmov 136(%rax),%rsi\n\tmov 200(%rax),%rdi\n\tmov 264(%rax),%r8\n\tmov 328(%rax),%r9\n\tmov 392(%rax),%r10\n\tmov 456(%rax),%r11\n\tmov 520(%rax),%rax\n\tret\n");
+/* ---- callee-saved register monitor: kernels are called through a trampoline that parks known values in rbx, rbp, r12-r15 and verifies
+ * them after the call (a kernel that returns with two of them swapped or one clobbered corrupts its *caller*, typically only in a
+ * different function compiled by a different compiler).  Up to 7 integer/pointer arguments. */
+volatile int v_abi_bad __attribute__((used));
+long v_abi_call7(void *fn, long a0, long a1, long a2, long a3, long a4, long a5, long a6);
+__asm__(".text\n.globl v_abi_call7\n.type v_abi_call7,@function\nv_abi_call7:\n"
+	"\tpush %rbx\n\tpush %rbp\n\tpush %r12\n\tpush %r13\n\tpush %r14\n\tpush %r15\n"
+	"\tmov %rdi,%rax\n\tmov %rsi,%rdi\n\tmov %rdx,%rsi\n\tmov %rcx,%rdx\n\tmov %r8,%rcx\n\tmov %r9,%r8\n\tmov 56(%rsp),%r9\n\tpushq 64(%rsp)\n"
+	"\tmovabs $0x1b1b1b1b5a5a0001,%rbx\n\tmovabs $0x2c2c2c2c5a5a0002,%rbp\n\tmovabs $0x3d3d3d3d5a5a0003,%r12\n\tmovabs $0x4e4e4e4e5a5a0004,%r13\n\tmovabs $0x5f5f5f5f5a5a0005,%r14\n\tmovabs $0x6a6a6a6a5a5a0006,%r15\n"
+	"\tcall *%rax\n\tadd $8,%rsp\n"
+	"\tmovabs $0x1b1b1b1b5a5a0001,%r10\n\txor %rbx,%r10\n\tmovabs $0x2c2c2c2c5a5a0002,%r11\n\txor %rbp,%r11\n\tor %r11,%r10\n"
+	"\tmovabs $0x3d3d3d3d5a5a0003,%r11\n\txor %r12,%r11\n\tor %r11,%r10\n\tmovabs $0x4e4e4e4e5a5a0004,%r11\n\txor %r13,%r11\n\tor %r11,%r10\n"
+	"\tmovabs $0x5f5f5f5f5a5a0005,%r11\n\txor %r14,%r11\n\tor %r11,%r10\n\tmovabs $0x6a6a6a6a5a5a0006,%r11\n\txor %r15,%r11\n\tor %r11,%r10\n"
+	"\tjz 1f\n\tmovl $1,v_abi_bad(%rip)\n1:\tpop %r15\n\tpop %r14\n\tpop %r13\n\tpop %r12\n\tpop %rbp\n\tpop %rbx\n\tret\n");
+void v_abi_selftest_swap(void); void v_abi_selftest_ok(void);
+__asm__(".text\n.globl v_abi_selftest_swap\n.type v_abi_selftest_swap,@function\nv_abi_selftest_swap:\n\txchg %r12,%r13\n\tret\n.globl v_abi_selftest_ok\n.type v_abi_selftest_ok,@function\nv_abi_selftest_ok:\n\tpush %r12\n\txor %r12,%r12\n\tpop %r12\n\tret\n");
+#define V_L(x) ((long) (x))
+#define V_PAD7(a, b, c, d, e, f, g, ...) V_L(a), V_L(b), V_L(c), V_L(d), V_L(e), V_L(f), V_L(g)
+#define V_ABI(fn, ...) v_abi_call7((void *) (fn), V_PAD7(__VA_ARGS__, 0, 0, 0, 0, 0, 0, 0))
+static long v_abi_calls_checked;
+static int v_poison_level = -1;   /* 0 sse, 1 avx, 2 avx512 (what this CPU / emulator executes); -2 = off (VERIF_NO_POISON) */
+static long v_poison_calls;
+static inline void v_poison_regs(void)
+{
+	if (v_poison_level == -1) {
+		uint32_t a, b, c, d; v_poison_level = 0;
+		if (getenv("VERIF_NO_POISON")) v_poison_level = -2;
+		else { __asm__ volatile("cpuid" : "=a"(a), "=b"(b), "=c"(c), "=d"(d) : "a"(1), "c"(0));
+			if ((c & (1u << 27)) && (c & (1u << 28))) { uint32_t lo, hi; __asm__ volatile("xgetbv" : "=a"(lo), "=d"(hi) : "c"(0)); if ((lo & 6) == 6) { v_poison_level = 1; __asm__ volatile("cpuid" : "=a"(a), "=b"(b), "=c"(c), "=d"(d) : "a"(7), "c"(0)); if ((b & (1u << 16)) && (b & (1u << 30)) && (lo & 0xe0) == 0xe0) v_poison_level = 2; } } }
+		uint64_t x = 0x9e3779b97f4a7c15ull; for (size_t i = 0; i < sizeof v_poison_buf; i += 8) { x ^= x << 13; x ^= x >> 7; x ^= x << 17; memcpy(v_poison_buf + i, &x, 8); }
+	}
+	if (v_poison_level < 0) return;
+	{ uint64_t *q = (uint64_t *) v_poison_buf; uint64_t x = q[3] + 0x9e3779b97f4a7c15ull * (uint64_t) (++v_poison_calls); for (int i = 0; i < 264; i += 5) { x ^= x << 13; x ^= x >> 7; x ^= x << 17; q[i] ^= x; } }
+	if (v_poison_level == 2) v_poison_avx512(); else if (v_poison_level == 1) v_poison_avx(); else v_poison_sse();
+}
 /* the watchdog counts user CPU time of the process (ITIMER_VIRTUAL), not wall-clock time: a loaded machine cannot make it fire */
 static inline void v_watchdog(int secs) { struct itimerval it; memset(&it, 0, sizeof it); it.it_value.tv_sec = secs; setitimer(ITIMER_VIRTUAL, &it, 0); }
-#define V_TRY(secs) (v_watchdog(secs), v_armed = 1, sigsetjmp(v_jmp, 1) == 0)
-#define V_END do { v_armed = 0; v_watchdog(0); } while (0)
+#define V_TRY(secs) (v_watchdog(secs), v_armed = 1, sigsetjmp(v_jmp, 1) == 0 && (v_poison_regs(), 1))
+#define V_END do { v_armed = 0; v_watchdog(0); if (v_abi_bad) { v_abi_bad = 0; v_viol("abi:callee-saved-register-clobbered", "a kernel returned with rbx, rbp or r12-r15 changed"); } } while (0)
 
 static double v_now(void) { struct timespec t; clock_gettime(CLOCK_MONOTONIC, &t); return t.tv_sec + t.tv_nsec * 1e-9; }
 
@@ -391,6 +450,9 @@ static void v_init(int argc, char **argv)
 	v_parse_args(argc, argv);
 	v_install_traps();
 	v_fp_open();
+	/* monitor self-tests: the trampoline must flag a routine that swaps two callee-saved registers and pass one that preserves them */
+	V_ABI(v_abi_selftest_ok, 1, 2, 3); if (v_abi_bad) v_harness_fail("callee-saved monitor flags a routine that preserves the registers");
+	V_ABI(v_abi_selftest_swap, 1, 2, 3, 4, 5, 6, 7); if (!v_abi_bad) v_harness_fail("callee-saved monitor does not flag a routine that swaps r12 and r13"); v_abi_bad = 0;
 }
 static int v_finish(void)
 {
